@@ -431,6 +431,20 @@ def _deferred_coercion(prog: Program, mod, f, call: ast.Call):
     return None
 
 
+def _defaulting_only(e: ast.AST, pname: str) -> bool:
+    """`p or <literal>`, `p if <test> else <literal>`, `<literal> if <test> else p`: the value is p itself or a literal."""
+    def lit(x):
+        return isinstance(x, ast.Constant) or (isinstance(x, ast.UnaryOp) and isinstance(x.operand, ast.Constant))
+
+    def me(x):
+        return isinstance(x, ast.Name) and x.id == pname
+    if isinstance(e, ast.BoolOp) and isinstance(e.op, ast.Or):
+        return any(me(v) for v in e.values) and all(me(v) or lit(v) for v in e.values)
+    if isinstance(e, ast.IfExp):
+        return (me(e.body) and lit(e.orelse)) or (lit(e.body) and me(e.orelse))
+    return False
+
+
 def check_raw_numeric_use(prog: Program, rep, rule: str) -> None:
     """A parameter declared as number-or-quantity is a bare number in an unknown (preferred) unit until it has been
     coerced.  Over the statement CFG with reaching definitions: every use that the parameter's entry value still reaches
@@ -458,8 +472,23 @@ def check_raw_numeric_use(prog: Program, rep, rule: str) -> None:
             rd = reaching_definitions(cfg, f.params)
             for pname, dim in cands:
                 n_params += 1
+                # definitions that still hold the value as it arrived: the entry, and rebindings that only supply a
+                # default (`p = p or 0`, `p = 0 if p is None else p`, `p = p if p else 0`)
+                raw_defs = {cfg.entry.id}
+                grew = True
+                while grew:
+                    grew = False
+                    for n in cfg.nodes:
+                        if n.id in raw_defs or not isinstance(n.ast, (ast.Assign, ast.AnnAssign)):
+                            continue
+                        tg = n.ast.targets if isinstance(n.ast, ast.Assign) else [n.ast.target]
+                        if not (len(tg) == 1 and isinstance(tg[0], ast.Name) and tg[0].id == pname and n.ast.value is not None):
+                            continue
+                        if _defaulting_only(n.ast.value, pname) and rd[n.id].get(pname, set()) & raw_defs:
+                            raw_defs.add(n.id)
+                            grew = True
                 for n in cfg.nodes:
-                    if n.ast is None or cfg.entry.id not in rd[n.id].get(pname, set()):
+                    if n.ast is None or not (rd[n.id].get(pname, set()) & raw_defs):
                         continue
                     root = n.ast.iter if n.kind == 'for' else n.ast
                     for x in ast.walk(root):
